@@ -201,7 +201,7 @@ class World:
     def __init__(self, fam, eager, daskin, checknans, seed=0):
         self.fam = FAMILIES[fam] if isinstance(fam, str) else fam
         self.eager, self.daskin, self.checknans, self.seed = eager, daskin, checknans, seed
-        kw = dict(seed=seed, complex_=self.fam.complex, kind=self.fam.kind, red=self.fam.time_ordered)
+        kw = dict(seed=seed, complex_=self.fam.complex, kind=self.fam.kind, red=self.fam.time_ordered, multi=self.fam.multi_sample)
         self.ds = make_datasets(dask=daskin, **kw)
         self.ds_mem = make_datasets(dask=False, **kw)
         self.digest0 = {k: digest(v.objs()) for k, v in self.ds.items()}
@@ -264,8 +264,15 @@ class World:
 
 
 def _labels(da, dim):
-    idx = da.indexes[dim]
-    return list(map(str, idx.tolist()))
+    """sample labels of an array as a sorted list of strings; `dim` may be a list of sample dimensions
+    (then: the label tuples of their product).  Returns None if a sample dimension is missing."""
+    dims = list(dim) if isinstance(dim, (list, tuple)) else [dim]
+    if any(d not in da.dims for d in dims):
+        return None
+    if len(dims) == 1:
+        return list(map(str, da.indexes[dims[0]].tolist()))
+    import itertools
+    return sorted(map(str, itertools.product(*[da.indexes[d].tolist() for d in dims])))
 
 
 class Replayer:
@@ -393,7 +400,7 @@ class Replayer:
         # labels come from the argument
         lab = self.sample_labels(w.ds_mem[d])
         for i, r_ in enumerate(res):
-            ok = w.ds[d].dim in r_.dims and _labels(r_, w.ds[d].dim) == lab
+            ok = _labels(r_, w.ds[d].dim) == lab
             self.D(ok, "C05", "C05_TransformLabelsFromArgument",
                    f"transform({d}) result field {i} is not labelled with the argument's sample coordinates")
             nn = int(np.isnan(_vals(r_)).sum())
@@ -420,7 +427,7 @@ class Replayer:
         lab = self.sample_labels(w.ds_mem[a["labelsFrom"]])
         for i, s_ in enumerate(sc):
             dim = w.ds[a["labelsFrom"]].dim
-            self.D(dim in s_.dims and _labels(s_, dim) == lab, "C05", "C05_TransformLabelsFromArgument",
+            self.D(_labels(s_, dim) == lab, "C05", "C05_TransformLabelsFromArgument",
                    f"scores() field {i} not labelled with the fitted data's sample coordinates")
         if len(used) == 1 and a.get("order") != "raw":
             ref = w.ref(used[0])
@@ -446,7 +453,7 @@ class Replayer:
         d = a["arg"]
         lab = self.sample_labels(w.ds_mem[d])
         for i, r_ in enumerate(res):
-            ok = w.ds[d].dim in r_.dims and _labels(r_, w.ds[d].dim) == lab
+            ok = _labels(r_, w.ds[d].dim) == lab
             self.D(ok, "C05", "C05_TransformLabelsFromArgument",
                    f"rotator.transform({d}) field {i} is not labelled with the argument's sample coordinates")
         if a["order"] == "sorted":
